@@ -2,7 +2,7 @@ ENGINES = [
     {"name": "E1-crosshair", "path": "vlib/chx.py", "serves_properties": ["C13", "C18", "C20"],
      "kind_free_text": "CrossHair (z3) symbolic execution of harness conditions that call toasty's real functions; inductive cuts by stubbing recursive globals / the reducer; counterexamples replayed under plain CPython"},
 ]
-ENGINES.append({"name": "E2-symx-symnp", "path": "vlib/e2.py", "serves_properties": ["C15"],
+ENGINES.append({"name": "E2-symx-symnp", "path": "vlib/e2.py", "serves_properties": ["C02", "C14", "C15"],
      "kind_free_text": "own z3-backed proxy-object symbolic execution (vlib/symx.py) with a lazy symbolic numpy (vlib/symnp.py) patched into toasty's modules; claims proved per path; counterexamples and vacuity twins replayed with real numpy on the solver model's inputs"})
 NOTES = ("Solver-based checking of the real code. Exit 0 = all explored obligations held; inconclusive obligations are printed as INCONCLUSIVE and listed in evidence, never counted as held. "
          "Exit 2 = harness error. known_findings.json lists genuine defects (open / fixed).")
@@ -31,4 +31,17 @@ CHECKS["C15"] = dict(
     technique="z3 via own symbolic execution (symx) of the real fill/update/clear/is_completely_masked/write_image/read_image with a lazy symbolic numpy: symbolic source shape, rectangle, pixel, channel and contents",
     text="Per-pixel semantics decided by z3 for all 8 modes, symbolic source shape (<= 4096^2), symbolic rectangle (forward and reversed-row slice forms), symbolic inspected pixel/channel and arbitrary prior buffer; write_image unlink rule and read_image default handling for both prior file states. unsat = holds for every value in those bounds.",
     note="numpy as modelled by symnp (validated each run against real numpy on solver-chosen inputs), floats as reals + NaN flag, codecs not symbolic (read-back through PNG/FITS/npy is outside the claim).",
+)
+
+CHECKS["C02"] = dict(
+    engine="E2-symx-symnp", ref="DESIGN.md §4.2",
+    technique="z3 via own symbolic execution (symx + symbolic numpy) of the real TileMerger.walk_callback / averaging_merger / PyramidIO over an in-memory tile store, symbolic pixel index and uninterpreted child tiles",
+    text="For every one of the 65 536 output pixels/channels (symbolic index), all 16 child-presence patterns, 10 mode/format combinations and both vertical parities, with arbitrary child contents, z3 shows the stored parent pixel equals the 2x2 reduction of the display-orientation mosaic written from the property text (cross-validated against an independent numpy reference), that the parent is stored iff its merged content is not entirely undefined, and that nothing is touched when no child exists; the inspected merge follows another merge on the same TileMerger (reused buffer).",
+    note="codecs = identity (in-memory store), floats as reals + NaN flag, transparent RGBA / partially-NaN F16x3 source pixels count as undefined; serial = parallel via C01 + determinism (paper argument).",
+)
+CHECKS["C14"] = dict(
+    engine="E2-symx-symnp", ref="DESIGN.md §4.3",
+    technique="z3 via own symbolic execution of the real TileMerger._get_min_max_of_children / Image.save / ImageLoader.load_path / Builder.cascade with symbolic recorded ranges and tile contents (inductive leaf / parent / root steps)",
+    text="Inductive steps decided by z3: a leaf saved without explicit range records its finite nan-min/max (bounds every pixel, none for all-NaN); a parent records min/max of its children's recorded ranges for every presence pattern and every subset of children carrying a range (symbolic reals), and load_path hands the recorded values back; Builder.cascade copies the root's values to the ImageSet.",
+    note="FITS header I/O = identity (astropy formatting outside), nanmin/nanmax modelled by defining facts, min/max builtins in toasty.merge replaced by branch-free equivalents, induction over levels on paper.",
 )
